@@ -292,6 +292,8 @@ class TreeGen:
         lo, hi = self.leaves[n]
         if (lo, hi) == (0, 1) and self.rng.random() < self.str_p:
             return {"c": "str", "id": n}
+        if self.rng.random() < 0.15:
+            return {"c": "var", "id": n, "lo": lo, "hi": hi, "$sub": True}      # an instance of a variable subclass
         return {"c": "var", "id": n, "lo": lo, "hi": hi}
 
     def obj_id(self, ast):
